@@ -951,6 +951,11 @@ func (s *Service) runPipeline(ctx context.Context, rp *runnablePipeline) error {
 		// meantime), a blind Delete(id) would remove that OTHER run instead
 		// of just undoing this one's own publication.
 		s.deleteRunningPipelineIfCurrent(rp.pipeline.ID, rp)
+		// The nodes were already started above and nothing owns this run
+		// anymore (the cleanup goroutine below is not registered yet): stop
+		// them, otherwise the connectors stay open and keep running while
+		// Stop reports "not running" and Start "already running".
+		_ = s.stopForceful(ctx, rp)
 		return err
 	}
 
